@@ -607,6 +607,12 @@ def classify(scn, cname, cfg, nps, pas, d, s, i, missing, extra):
                 return 'dst-cell-unoccupied-by-src'
             if multi:
                 return 'multi-array-src-cell-hmax-below-dst-h'
+            # a missed source particle stored at a level whose cell size is
+            # below its cut-off: _get_level adds an ABSOLUTE EPS to cell_size
+            for j in (missing or []):
+                hj = float(pas[s].h[j])
+                if rs * hj > rs * ((nps.cell_size / rs) / (2 ** (L - 1 - lev(hj)))):
+                    return 'level-eps-sliver'
         if cname == 'StratifiedSFCNNPS' and varh:
             return 'variable-h'
         if 'Octree' in cname:
@@ -624,6 +630,91 @@ def classify(scn, cname, cfg, nps, pas, d, s, i, missing, extra):
 
 
 PROGRESS = None        # file object the child reports its current state to
+
+
+def _morton(i, j, k):
+    """bit interleave written independently of z_order.h::get_key"""
+    key = 0
+    for b in range(21):
+        key |= (((i >> b) & 1) << (3 * b)) | (((j >> b) & 1) << (3 * b + 1)) | \
+            (((k >> b) & 1) << (3 * b + 2))
+    return key
+
+
+def dump_zorder(nps, pas, cname, cfg):
+    """internals of a REAL ZOrderNNPS / ExtendedZOrderNNPS through its Python
+    accessors (get_keys / get_cids / get_pids / get_nbr_boxes, max_cid), and
+    the integer cell of every particle computed with the same double
+    operations as find_cell_id_raw (x - xmin, / h_sub, floor)."""
+    ns = [pa.get_number_of_particles() for pa in pas]
+    if sum(ns) == 0 or sum(ns) > 120:
+        return None
+    H = int(cfg['knobs'].get('H', 3 if cname == 'ExtendedZOrderNNPS' else 1))
+    sym = cname == 'ExtendedZOrderNNPS' and not cfg['knobs'].get('asymmetric', False)
+    xmin = [float(v) for v in nps.xmin.get_npy_array()]
+    xmax = [float(v) for v in nps.xmax.get_npy_array()]
+    hsub = float(nps.cell_size) / H
+
+    def cell(x, y, z):
+        return [int(math.floor((x - xmin[0]) / hsub)), int(math.floor((y - xmin[1]) / hsub)),
+                int(math.floor((z - xmin[2]) / hsub))]
+    cells = []
+    for pa in pas:
+        x, y, z = (np.array(pa.get(ax, only_real_particles=False), dtype=float)
+                   for ax in ('x', 'y', 'z'))
+        cells.append([cell(float(a), float(b), float(c)) for a, b, c in zip(x, y, z)])
+    top = cell(xmax[0], xmax[1], xmax[2])
+    allc = [v for cs_ in cells for c in cs_ for v in c] + top
+    if min(allc) < 0 or max(allc) + H >= 2 ** 21:
+        return None
+    max_cid = int(nps.max_cid)
+    real = []
+    for a, n in enumerate(ns):
+        if n == 0:
+            real.append({'keys': [], 'cids': [], 'pids': [], 'rows': None})
+            continue
+        keys = [int(v) for v in nps.get_keys(a)]
+        cids = [int(v) for v in nps.get_cids(a)]
+        pids = [int(v) for v in nps.get_pids(a)]
+        rows = None
+        if not sym:
+            rows = []
+            for cid in range(max_cid):
+                row = [int(v) for v in nps.get_nbr_boxes(a, cid)]
+                pre = []
+                for v in row:
+                    if v < 0:
+                        break
+                    pre.append(v)
+                rows.append(pre)
+        real.append({'keys': keys, 'cids': cids, 'pids': pids, 'rows': rows})
+    return {'H': H, 'sym': sym, 'maxkey': 1 + _morton(*top), 'cells': cells,
+            'max_cid': max_cid, 'real': real,
+            'mykeys': [[_morton(*c) for c in cs_] for cs_ in cells]}
+
+
+def dump_levels(scn, cname, cfg, nps, pas):
+    """per-level particle counts of a REAL stratified object: StratifiedSFCNNPS
+    through get_number_of_particles(pa_index, level) of the live object,
+    StratifiedHashNNPS through count_particles(level) of a second object built
+    from the same arrays (count_particles reads the CURRENT context; the live
+    object's context must not be touched)."""
+    if sum(pa.get_number_of_particles() for pa in pas) == 0:
+        return None
+    if cname == 'StratifiedSFCNNPS':
+        L = int(nps.num_levels)
+        counts = [[int(nps.get_number_of_particles(a, l)) for l in range(L)]
+                  for a in range(len(pas))]
+        obj = nps
+    else:
+        obj = construct(scn, cname, dict(cfg, cache0=False), pas)
+        L = int(obj.num_levels)
+        counts = []
+        for a in range(len(pas)):
+            obj.set_context(a, a)
+            counts.append([int(obj.count_particles(l)) for l in range(L)])
+    return {'L': L, 'cs': float(obj.cell_size).hex(), 'hmin': float(obj.hmin).hex(),
+            'counts': counts}
 
 
 def _progress(st):
@@ -697,6 +788,16 @@ def run_class(scn, cname, cfg, want_states=None):
         res['states'].append(st)
         res['oracle_text'].append(lists_text(narr, definite))
         res['cs'].append([float(nps.cell_size), float(nps.hmin)])
+        if cname in ('StratifiedHashNNPS', 'StratifiedSFCNNPS'):
+            try:
+                res.setdefault('lv', []).append(dump_levels(scn, cname, cfg, nps, pas))
+            except Exception as e:      # noqa
+                res.setdefault('lv', []).append({'error': '%s: %s' % (type(e).__name__, e)})
+        if cname in ('ZOrderNNPS', 'ExtendedZOrderNNPS'):
+            try:
+                res.setdefault('zo', []).append(dump_zorder(nps, pas, cname, cfg))
+            except Exception as e:      # noqa
+                res.setdefault('zo', []).append({'error': '%s: %s' % (type(e).__name__, e)})
         modes = [mode] if cname == 'DictBoxSortNNPS' else [mode, not mode]
         shas = []
         for mi, m in enumerate(modes):
@@ -1001,6 +1102,119 @@ def check_real_trees(scns, results, R):
                        else 'octree-model-traversal')
 
 
+def check_zorder_internals(scns, results, R):
+    """the bookkeeping of the REAL z-order objects (sorted keys, pids, the cell
+    ids shared by all arrays, the rows of nbr_boxes) against the model of
+    Model/NnpsZOrder.lean run on the same integer cells.  Incidental: the
+    order of the pids inside a run of equal keys (std::sort is not stable)."""
+    lines, where = [], []
+    for scn in scns:
+        for c in ('ZOrderNNPS', 'ExtendedZOrderNNPS'):
+            r = results.get((scn['sid'], c))
+            if not r or not r.get('zo'):
+                continue
+            for k, z in enumerate(r['zo']):
+                if z is None:
+                    R.count('zorder-internals:not-dumped')
+                    continue
+                if 'error' in z:
+                    R.disagree({'scenario': scn, 'cls': c, 'step': k}, 'readable internals',
+                               z['error'], 'zorder-internals-dump')
+                    continue
+                toks = ['zo maxkey=%d H=%d' % (z['maxkey'], z['H'])]
+                for cs_ in z['cells']:
+                    toks.append('A c=' + (','.join('%d:%d:%d' % tuple(t) for t in cs_) or '_'))
+                lines.append(' '.join(toks))
+                where.append((scn, c, k, z))
+    outs = run_model_parallel(lines)
+
+    def ints(v):
+        return [] if v == '_' else [int(t) for t in v.split(',')]
+    for (scn, c, k, z), o, ln in zip(where, outs, lines):
+        if o == 'bad-op':
+            raise SystemExit('model driver rejected: ' + ln[:300])
+        kv = dict(t.split('=', 1) for t in o.split() if '=' in t)
+        R.count('zorder-internals:checked')
+        R.count('zorder-internals:%s%s' % (c, '-sym' if z['sym'] else ''))
+        bad = []
+        if int(kv['maxcid']) != z['max_cid']:
+            bad.append('max_cid model %s impl %d' % (kv['maxcid'], z['max_cid']))
+        for a, ra in enumerate(z['real']):
+            mk, mc, mp_ = ints(kv['K%d' % a]), ints(kv['C%d' % a]), ints(kv['P%d' % a])
+            if sorted(z['mykeys'][a]) != ra['keys']:
+                bad.append('keys[%d] differ from an independent Morton interleave' % a)
+            if mk != ra['keys']:
+                bad.append('keys[%d] model %r impl %r' % (a, mk[:20], ra['keys'][:20]))
+            if mc != ra['cids']:
+                bad.append('cids[%d] model %r impl %r' % (a, mc[:20], ra['cids'][:20]))
+            # canonical pids: ascending inside each run of equal keys
+            cp, run = [], []
+            for pos, pid in enumerate(ra['pids']):
+                if pos > 0 and ra['keys'][pos] != ra['keys'][pos - 1]:
+                    cp += sorted(run)
+                    run = []
+                run.append(pid)
+            cp += sorted(run)
+            if mp_ != cp:
+                bad.append('pids[%d] model %r impl %r' % (a, mp_[:20], cp[:20]))
+            if ra['rows'] is not None:
+                body = kv['R%d' % a]
+                mrows = [] if body == '-' else [ints(t) for t in body.split('|')]
+                if mrows != ra['rows']:
+                    dif = [i for i in range(min(len(mrows), len(ra['rows'])))
+                           if mrows[i] != ra['rows'][i]][:3]
+                    bad.append('nbr_boxes[%d] rows %r: model %r impl %r' % (
+                        a, dif, [mrows[i] for i in dif], [ra['rows'][i] for i in dif]))
+                R.count('zorder-internals:rows-compared')
+        if bad:
+            R.count('zorder-internals:BAD')
+            R.disagree({'scenario': scn, 'cls': c, 'cfg': scn['cfgs'][c], 'step': k,
+                        'line': ln[:3000]}, o[:2000], '; '.join(bad)[:2000], 'zorder-internals')
+
+
+def check_strat_levels(scns, results, R):
+    """the level of every particle as the model computes it (exact arithmetic
+    on the exact values of cell_size, hmin, EPS and h) against the per-level
+    particle counts of the REAL StratifiedHashNNPS / StratifiedSFCNNPS."""
+    lines, where = [], []
+    for scn in scns:
+        for c, kind, eps in (('StratifiedHashNNPS', 'hash', 1e-6), ('StratifiedSFCNNPS', 'sfc', 1e-13)):
+            r = results.get((scn['sid'], c))
+            if not r or not r.get('lv'):
+                continue
+            for k, z in enumerate(r['lv']):
+                if z is None or k >= len(r.get('states', [])):
+                    continue
+                if 'error' in z:
+                    R.disagree({'scenario': scn, 'cls': c, 'step': k}, 'readable level counts',
+                               z['error'], 'strat-levels-dump')
+                    continue
+                st = r['states'][k]
+                toks = ['lev kind=%s rs=%s cs=%s hmin=%s eps=%s L=%d' % (
+                    kind, H.qstr(Fraction(*scn['rs'])), H.qstr(Fraction(float.fromhex(z['cs']))),
+                    H.qstr(Fraction(float.fromhex(z['hmin']))), H.qstr(Fraction(eps)), z['L'])]
+                for a in st:
+                    toks.append('H h=' + (','.join(qfmt(scn, v) for v in a['h']) or '_'))
+                lines.append(' '.join(toks))
+                where.append((scn, c, k, z))
+    outs = run_model_parallel(lines)
+    for (scn, c, k, z), o, ln in zip(where, outs, lines):
+        if o == 'bad-op':
+            raise SystemExit('model driver rejected: ' + ln[:300])
+        R.count('strat-levels:checked')
+        R.count('strat-levels:%s-L%d' % (c, z['L']))
+        blocks = [b.strip() for b in o.split('V')[1:]]
+        mcounts = []
+        for b in blocks:
+            lv = [] if b in ('_', '') else [int(t) for t in b.split(',')]
+            mcounts.append([sum(1 for v in lv if v == l) for l in range(z['L'])])
+        if mcounts != z['counts']:
+            R.count('strat-levels:BAD')
+            R.disagree({'scenario': scn, 'cls': c, 'cfg': scn['cfgs'][c], 'step': k, 'line': ln[:2000]},
+                       'per-level counts %r' % (mcounts,), 'per-level counts %r' % (z['counts'],),
+                       'strat-levels')
+
+
 def run_model_parallel(lines, nthreads=12):
     if not lines:
         return []
@@ -1023,7 +1237,7 @@ def parse_model(out):
     kv = dict(t.split('=', 1) for t in head.split() if '=' in t)
     cs = Fraction(kv['cs'])
     hm = None if kv.get('hmin') == 'none' else Fraction(kv['hmin'])
-    flags = {k: kv[k] for k in ('grid', 'tree', 'cache', 'store') if k in kv}
+    flags = {k: kv[k] for k in ('grid', 'tree', 'cache', 'store', 'zorder', 'strat') if k in kv}
     return cs, hm, flags, ('P ' + ptxt) if ptxt else ''
 
 
@@ -1210,6 +1424,8 @@ def evaluate(scns, R, work, tag, nproc=16):
                     'cfg': r.get('cfg'), 'model': model[(sid, 0)][3][:300] if (sid, 0) in model else None,
                     'impl_sha': r.get('steps')} if len(R.d['samples']) < 4 and c == 'ZOrderNNPS' else None)
     check_real_trees(scns, results, R)
+    check_zorder_internals(scns, results, R)
+    check_strat_levels(scns, results, R)
     return results
 
 
@@ -1255,6 +1471,30 @@ def corpus():
     for c in CLASSES:
         # cache off first: step 1 then starts with the cached pass
         out[-1]['cfgs'][c]['cache0'] = False
+    if True:
+        # pinned corpus state of a repaired defect (known_findings.json, fixed:
+        # C01:StratifiedSFCNNPS:level-eps-sliver); see Props/C01.lean
+        # sfc_level_eps_sliver.  StratifiedSFCNNPS, 2 levels,
+        # cell_size 2^-9: source particle 3 has rs*h = s0*(1 + 2e-11) with s0 the
+        # level-0 cell size, is binned at level 0, sits two cells from
+        # destination particle 2 at distance s0*(1 + 1e-11) < rs*h.
+        hmax = 2.0 ** -10
+        s0 = hmax
+        X = 40 * s0
+        xmin = 0.0 - 0.01 * X
+        xq = xmin + 10 * s0
+        while math.floor((xq - xmin) / s0) != 9:
+            xq = float(np.nextafter(xq, -1))
+        xj = xq + s0 * (1 + 1e-11)
+        sl = dict(base, sid='corpus-sfc-eps-sliver', dim=1, unit=0, gen='corpus', arrays=[
+            {'x': [0.0, X, xq, xj], 'y': [0.0] * 4, 'z': [0.0] * 4,
+             'h': [hmax, hmax, 0.3 * s0 / 2, (s0 / 2) * (1 + 2e-11)]}])
+        sl['cfgs'] = {c: _pick_knobs(rng, c, None) for c in CLASSES}
+        sl['cfgs']['StratifiedSFCNNPS']['knobs'] = {'num_levels': 2}
+        sl['cfgs']['StratifiedHashNNPS']['knobs'] = {'num_levels': 2, 'H': 1, 'table_size': 131072}
+        for c in CLASSES:
+            sl['cfgs'][c]['fixed_h'] = False
+        out.append(sl)
     return out
 
 
